@@ -186,7 +186,19 @@ def run(ctx):
     tr = [e for e in sg.events if e.kind == "assign" and not e.loops() and any(x[0] == "call" and x[1] == "numpy.arange" for x in T.subterms(e.value))]
     want_f = T.call("numpy.arange", (ti, tf, T.num(1)))
     want_b = T.idx(T.call("numpy.arange", (tf, ti, T.num(1))), ("slice", T.NONE, T.NONE, T.num(-1)))
-    okr = {(tuple(e.conds()), e.value) for e in tr} == {((fwd,), want_f), ((T.b_not(fwd),), want_b)}
+    def descending(t):
+        """(lo, hi) when t visits hi-1, hi-2, ..., lo: the spellings of 'arange(lo, hi, 1) reversed' (slice, reversed(), negative step)"""
+        if t[0] == "idx" and t[2] == ("slice", T.NONE, T.NONE, T.num(-1)):
+            t = ("call", "reversed", (t[1],))
+        if t[0] == "call" and t[1] == "reversed" and len(t[2]) == 1:
+            r = t[2][0]
+            if r[0] == "call" and r[1] in ("numpy.arange", "range") and len(r[2]) in (2, 3) and (len(r[2]) == 2 or r[2][2] == T.num(1)):
+                return r[2][0], r[2][1]
+        if t[0] == "call" and t[1] in ("numpy.arange", "range") and len(t[2]) == 3 and t[2][2] == T.num(-1):
+            return T.add(t[2][1], T.num(1)), T.add(t[2][0], T.num(1))
+        return None
+    got = {(tuple(e.conds()), e.value) for e in tr}
+    okr = len(got) == 2 and ((fwd,), want_f) in got and any(c == (T.b_not(fwd),) and descending(v) == (tf, ti) for c, v in got)
     tm = [e for e in sg.events if e.kind == "assign" and e.loops() and e.value[0] in ("idx", "call") and e.name != gp.params[1]]
     okm = False
     for e in tm:
@@ -201,6 +213,31 @@ def run(ctx):
     ctx.check(okr and okm and oku, "FORM", f"{gp.qualname} / FORM / backward = reversed range, each step through the inverse of mapping[ii] of that ii", ctx.where(gp),
               "forward: mapping[ii]; backward: {v: k for k, v in mapping[ii].items()} over arange(final, initial)[::-1]",
               f"step list ok={okr}, inverse of the same step ok={okm}, point threaded ok={oku}")
+
+    # positive rule (seed C12-r7-1): whatever the shape of the rest, a step that goes through the INVERSE of mapping[ii] belongs to the
+    # backward walk (final < initial), which has to visit the steps newest-first; an iterable that is an ascending arange/range in the
+    # backward case applies inverse(mapping[0]) before inverse(mapping[1]) - wrong as soon as the walk spans two frames
+    def backward_case(t):
+        while t[0] == "phi":
+            if t[1] == fwd:
+                t = t[3]
+            elif t[1] == T.b_not(fwd):
+                t = t[2]
+            else:
+                return None
+        return t
+    for e in tm:
+        if e.conds() != [T.b_not(fwd)]:
+            continue
+        it = backward_case(e.loops()[-1][2])
+        if it is None or it[0] != "call" or it[1] not in ("numpy.arange", "range"):
+            continue
+        args = it[2]
+        step = args[2] if len(args) > 2 else T.num(1)
+        if step[0] == "num" and step[1] > 0:
+            ctx.violation("FORM", f"{gp.qualname} / FORM / the backward walk visits its steps newest-first", ctx.where(gp, e.node),
+                          f"under `{T.show(T.b_not(fwd))}` the loop runs over `{T.show(it)[:120]}`, an ascending range, and goes through the inverse of "
+                          "mapping[ii]: a backward lookup over two or more frames applies the oldest inverse map first and ends at the wrong vertex")
 
     # the walk may only stop on "no vertex" (None): vertex ids are arbitrary integers and 0 is one of them, so a truthiness test of the
     # current id ends the walk at vertex 0
@@ -303,6 +340,11 @@ PINNED = [
      "        for v0 in rvertices0.values():\n            if True:\n                try:\n                    mapping[v0.id] = self.find_best(v0, rvertices1, mapping.values()).id\n                except AttributeError:\n                    mapping[v0.id] = None"),
     ("initial guess merged after the search", _P, "        mapping = {**mapping, **initial_guess}\n", "        mapping = {**mapping}\n"),
     ("farthest candidate", _P, "best = candidates[distances.index(min(distances))]", "best = candidates[distances.index(max(distances))]"),
+    ("backward walk over an ascending range (seed C12-r7-1)", _P,
+     "            timerange = np.arange(final_time, initial_time, 1)[::-1]\n", "            timerange = np.arange(final_time, initial_time, 1)\n"),
+    ("backward walk: direction hoisted, range from sorted() (seed C12-r7-1, as written)", _P,
+     "        if initial_time < final_time:\n            timerange = np.arange(initial_time, final_time, 1)\n        else:\n            timerange = np.arange(final_time, initial_time, 1)[::-1]\n        \n        for ii in timerange:\n            if initial_time < final_time:\n",
+     "        forward = initial_time < final_time\n        first, last = sorted((initial_time, final_time))\n        \n        for ii in np.arange(first, last, 1):\n            if forward:\n"),
     ("distances over a different list", _P, "distances = [self.distance(v0, vc) for vc in candidates]", "distances = [self.distance(v0, vc) for vc in candidatesObverse]"),
     ("search starts at 5%", _P, "        spread = 0.005\n", "        spread = 0.05\n"),
     ("cut-off 0.5", _P, "        self.cutoff = 0.1\n", "        self.cutoff = 0.5\n"),
@@ -316,6 +358,10 @@ PINNED = [
      "                    xcoord = (v1.x - v0.x)**2\n                    ycoord = 0\n                    if xcoord + ycoord < maxspread**2:\n                        candidatesObverse.append(v1)"),
 ]
 PRESERVING = [
+    ("direction test hoisted, reversed range kept", _P,
+     "        for ii in timerange:\n            if initial_time < final_time:\n", "        forward = initial_time < final_time\n        for ii in timerange:\n            if forward:\n"),
+    ("backward range spelled with a negative step", _P,
+     "            timerange = np.arange(final_time, initial_time, 1)[::-1]\n", "            timerange = np.arange(initial_time - 1, final_time - 1, -1)\n"),
     ("keys() dropped in the guard", _P, "        for v0 in rvertices0.values():\n            if v0.id not in mapping.keys():", "        for v0 in rvertices0.values():\n            if v0.id not in mapping:"),
     ("doubling spelled as multiplication", _P, "            spread += spread\n        while len(candidatesInverse)", "            spread = 2 * spread\n        while len(candidatesInverse)"),
 ]
